@@ -33,6 +33,9 @@ pub struct JobDef {
     /// with `volatile`: only the last part contains the evaluation index
     #[serde(default)]
     pub volatile_last_only: bool,
+    /// per part (in id order) the ids of the upstreams it reads; empty: every part reads all upstreams
+    #[serde(default)]
+    pub part_inputs: Vec<Vec<String>>,
 }
 
 impl JobDef {
@@ -44,6 +47,7 @@ impl JobDef {
             volatile: false,
             split_inputs: false,
             volatile_last_only: false,
+            part_inputs: vec![],
         }
     }
     pub fn parts(&self) -> Vec<&str> {
@@ -354,6 +358,9 @@ impl Cfg {
                             continue;
                         }
                         if jd.split_inputs && ui != pi {
+                            continue;
+                        }
+                        if !jd.part_inputs.is_empty() && !jd.part_inputs.get(pi).map(|l| l.iter().any(|x| *x == g.jobs[*u].id)).unwrap_or(false) {
                             continue;
                         }
                         for q in g.consumed(*u, j) {
